@@ -6,10 +6,17 @@ import (
 )
 
 func (p *Pool) Sched(ctx context.Context, e Event, period time.Duration) {
+	p.stateM.RLock()
+	pCtx := p.ctx
+	p.stateM.RUnlock()
+	if pCtx == nil {
+		return
+	}
+
 	go func() {
 		for {
 			select {
-			case <-p.ctx.Done():
+			case <-pCtx.Done():
 				return
 			case <-time.After(period):
 				p.Send(ctx, e)
